@@ -31,6 +31,14 @@ echo "demo_unchanged_rc=$R0 demo_changed_rc=$R1 suite_changed_rc=$R2"
 echo "== check against the change"
 (cd /verif && VERIF_REPO=$V timeout 3000 ./check $ID > /tmp/seed-$ID.check 2>&1); RC=$?
 grep "VIOLATION\|KNOWN\|INCONCLUSIVE\|BROKEN\|tier=" /tmp/seed-$ID.check | head -12
+# a change can surface through the check of a neighbouring property: EXTRA="C03 C12" runs those too
+EXTRA_RES=""
+for X in ${EXTRA:-}; do
+  (cd /verif && VERIF_REPO=$V timeout 3000 ./check $X > /tmp/seed-$ID.check.$X 2>&1); XR=$?
+  grep "VIOLATION\|tier=" /tmp/seed-$ID.check.$X | head -4
+  EXTRA_RES="$EXTRA_RES $X:rc=$XR:$(grep -m1 '^#   ' /tmp/seed-$ID.check.$X | cut -c5-120 | tr '"' ' ')"
+  rm -f /tmp/seed-$ID.check.$X
+done
 cp $M/.mutant/patch.diff $OUT/patch.diff
 cp $M/$DEMO $OUT/demo_test.go
 cp $M/.mutant/README.md $OUT/README.md 2>/dev/null
@@ -39,7 +47,8 @@ import json
 json.dump({"property":"$ID","demo_file":"$DEMO","demo_unchanged_rc":$R0,"demo_changed_rc":$R1,"suite_with_change_rc":$R2,
  "check_cmd":"VERIF_REPO=<worktree with patch> ./check $ID","check_rc":$RC,
  "check_output":[l.rstrip() for l in open("/tmp/seed-$ID.check") if l.startswith(("VIOLATION","#   ","INCONCLUSIVE","BROKEN","$ID tier"))][:20],
- "valid": ($R0==0 and $R1!=0 and $R2==0), "detected": $RC==1}, open("$OUT/meta.json","w"), indent=1)
+ "other_checks": "$EXTRA_RES".split("  ") if "$EXTRA_RES".strip() else [],
+ "valid": ($R0==0 and $R1!=0 and $R2==0), "detected": $RC==1 or ":rc=1:" in "$EXTRA_RES"}, open("$OUT/meta.json","w"), indent=1)
 PY
 git -C /repo worktree remove --force $V
 rm -f /tmp/seed-$ID.demo /tmp/seed-$ID.check
